@@ -277,16 +277,20 @@ def check(ctx):
             i = exp["i"]
             BOXS, LAYS, OFFS = Seq.atom(exp["BOX"]), Seq.atom(exp["LAY"]), Seq.atom(exp["OFF"])
             want_boxes = BOXS.slice(None, i, ev.facts) + Seq([Item(exp["box1"]), Item(exp["box0"])]) + BOXS.slice(i + 2, None, ev.facts)
-            lays = res.f["layers"].f["boxes"]
-            got1, got0 = lays.item(i, ev.facts), lays.item(i + 1, ev.facts)
-            if not same_layer(got1, exp["layer1"], ev.facts):
-                probs.append(("layer[i]", got1, exp["layer1"]))
-            if not same_layer(got0, exp["layer0"], ev.facts):
-                probs.append(("layer[i+1]", got0, exp["layer0"]))
-            want_lays = LAYS.slice(None, i, ev.facts) + Seq([Item(got1), Item(got0)]) + LAYS.slice(i + 2, None, ev.facts)
-            if lays.length != want_lays.length or lays.slice(None, i, ev.facts) != LAYS.slice(None, i, ev.facts) \
-                    or lays.slice(i + 2, None, ev.facts) != LAYS.slice(i + 2, None, ev.facts):
-                probs.append(("layers", lays, want_lays))
+            if res.f.get("layers") is None:
+                # no layers handed to the constructor: it scans boxes and offsets itself (C01 R01.2), so boxes and offsets decide the result
+                got1, got0 = exp["layer1"], exp["layer0"]
+            else:
+                lays = res.f["layers"].f["boxes"]
+                got1, got0 = lays.item(i, ev.facts), lays.item(i + 1, ev.facts)
+                if not same_layer(got1, exp["layer1"], ev.facts):
+                    probs.append(("layer[i]", got1, exp["layer1"]))
+                if not same_layer(got0, exp["layer0"], ev.facts):
+                    probs.append(("layer[i+1]", got0, exp["layer0"]))
+                want_lays = LAYS.slice(None, i, ev.facts) + Seq([Item(got1), Item(got0)]) + LAYS.slice(i + 2, None, ev.facts)
+                if lays.length != want_lays.length or lays.slice(None, i, ev.facts) != LAYS.slice(None, i, ev.facts) \
+                        or lays.slice(i + 2, None, ev.facts) != LAYS.slice(i + 2, None, ev.facts):
+                    probs.append(("layers", lays, want_lays))
             if res.f["boxes"] != want_boxes:
                 probs.append(("boxes", res.f["boxes"], want_boxes))
             offs = res.f["offsets"]
